@@ -1223,19 +1223,19 @@ func (m *Manager) doKillTasks(tasks Tasks) (killed Tasks, running Tasks, err err
 	})
 
 	// Remove from the roster the tasks which are also in the inactiveTasks list to delete
-	m.roster.updateTasks(m.roster.filtered(func(task *Task) bool {
+	m.roster.keepOnly(func(task *Task) bool {
 		return !inactiveTasks.Contains(func(t *Task) bool {
 			return t.taskId == task.taskId
 		})
-	}))
+	})
 
 	// Remove from the roster the tasks we are going to kill
 	// if we couldn't kill a task add it back to the roster
-	m.roster.updateTasks(m.roster.filtered(func(task *Task) bool {
+	m.roster.keepOnly(func(task *Task) bool {
 		return !tasks.Contains(func(t *Task) bool {
 			return t.taskId == task.taskId
 		})
-	}))
+	})
 
 	for _, task := range tasks.Filtered(func(task *Task) bool { return task.status == ACTIVE }) {
 		e := m.doKillTask(task)
